@@ -168,7 +168,7 @@ func C15(c *Ctx) {
 	stdio := c.P.Func("sio", "Stdio", "IO")
 	var consumers []*ssa.Function
 	if stdio != nil {
-		consumers = ssau.WithAnon(stdio)
+		consumers = pkgClosure(stdio)
 		for _, f := range consumers {
 			c.R.Fn(fname(f))
 		}
@@ -181,18 +181,23 @@ func C15(c *Ctx) {
 		}
 		// GetChanged reads change.F and produces it
 		reads, writes := false, false
-		ssau.Instrs(getC, func(in ssa.Instruction) {
-			if fa, ok := in.(*ssa.FieldAddr); ok && ssau.IsField(fa, prog.Abs("sio"), "Changed", f.Name()) {
-				for _, r := range ssau.Referrers(fa) {
-					if _, isLd := r.(*ssa.UnOp); isLd {
-						reads = true
-					}
-					if st, isSt := r.(*ssa.Store); isSt && st.Addr == ssa.Value(fa) {
-						writes = true
+		for _, gf := range pkgClosure(getC) {
+			if gf == change {
+				continue
+			}
+			ssau.Instrs(gf, func(in ssa.Instruction) {
+				if fa, ok := in.(*ssa.FieldAddr); ok && ssau.IsField(fa, prog.Abs("sio"), "Changed", f.Name()) {
+					for _, r := range ssau.Referrers(fa) {
+						if _, isLd := r.(*ssa.UnOp); isLd {
+							reads = true
+						}
+						if st, isSt := r.(*ssa.Store); isSt && st.Addr == ssa.Value(fa) {
+							writes = true
+						}
 					}
 				}
-			}
-		})
+			})
+		}
 		c.R.Check(reads && writes, "C15-R2", "GetChanged: propagates Changed."+f.Name(), c.P.Pos(getC.Pos()), "read from the cache and written to the report", "Changed."+f.Name()+" is not carried from the change cache into the report")
 		// consumer
 		used := false
@@ -207,34 +212,38 @@ func C15(c *Ctx) {
 	}
 	// a reported deletion forgets the last-reported record
 	okForget := false
-	ssau.Instrs(getC, func(in ssa.Instruction) {
-		ci, ok := in.(ssa.CallInstruction)
-		if !ok {
-			return
-		}
-		b, isB := ci.Common().Value.(*ssa.Builtin)
-		if !isB || b.Name() != "delete" {
-			return
-		}
-		if _, is := ssau.LoadOfField(ci.Common().Args[0], prog.Abs("sio"), "Crew", "previous"); !is {
-			return
-		}
-		for _, f := range flow.FactsAt(in.Block()) {
-			if _, is := ssau.LoadOfField(f.Cond, prog.Abs("sio"), "Changed", "Deleted"); is && f.True {
-				okForget = true
+	for _, gf := range pkgClosure(getC) {
+		ssau.Instrs(gf, func(in ssa.Instruction) {
+			ci, ok := in.(ssa.CallInstruction)
+			if !ok {
+				return
 			}
-		}
-	})
+			b, isB := ci.Common().Value.(*ssa.Builtin)
+			if !isB || b.Name() != "delete" {
+				return
+			}
+			if _, is := ssau.LoadOfField(ci.Common().Args[0], prog.Abs("sio"), "Crew", "previous"); !is {
+				return
+			}
+			for _, f := range flow.FactsAt(in.Block()) {
+				if _, is := ssau.LoadOfField(f.Cond, prog.Abs("sio"), "Changed", "Deleted"); is && f.True {
+					okForget = true
+				}
+			}
+		})
+	}
 	c.R.Check(okForget, "C15-R2", "GetChanged: a deletion clears the duplicate-suppression record", c.P.Pos(getC.Pos()), "delete(previous, mid) under Deleted", "after a reported deletion the last-reported record survives: re-creating the machine with the same content is suppressed as a duplicate and never reaches the store")
 	// suppression compares the full serialised change
 	okCmp := false
-	ssau.Instrs(getC, func(in ssa.Instruction) {
-		if bo, ok := in.(*ssa.BinOp); ok && bo.Op == token.EQL {
-			if b, isB := bo.X.Type().Underlying().(*types.Basic); isB && b.Kind() == types.String {
-				okCmp = true
+	for _, gf := range pkgClosure(getC) {
+		ssau.Instrs(gf, func(in ssa.Instruction) {
+			if bo, ok := in.(*ssa.BinOp); ok && bo.Op == token.EQL {
+				if b, isB := bo.X.Type().Underlying().(*types.Basic); isB && b.Kind() == types.String {
+					okCmp = true
+				}
 			}
-		}
-	})
+		})
+	}
 	c.R.Check(okCmp, "C15-R2", "GetChanged: suppression compares the serialised change", c.P.Pos(getC.Pos()), "string comparison of the JSON forms", "duplicate suppression no longer compares the whole change")
 	// boot path
 	nboot := 0
